@@ -76,6 +76,15 @@ def _margin(goal, se):
 REFUTE_MARGIN = 1e-7
 
 
+def _well_conditioned(env):
+    """solver models with denormal-scale or huge magnitudes are not trusted under float evaluation"""
+    for v in env.values():
+        a = abs(float(v))
+        if a != 0.0 and (a < 1e-12 or a > 1e9):
+            return False
+    return True
+
+
 def relevant_hyps(hyps, goal, always=()):
     """hypotheses connected to the goal through shared symbols (transitively)"""
     gv = set(T.free_vars([goal]))
@@ -116,50 +125,62 @@ def discharge(ob, alg, live, budget, tier):
             return done('refuted', 'sample-evaluation', witness=dict(se.env), detail='margin %.3g' % m)
     # 2. ring identity
     ring_detail = None
-    if ob.pair is not None and ob.tol is None and goal.op == '==':
+    if ob.pair is not None and (goal.op == '==' or ob.tol is not None):
         eqh = [(h.args[0], h.args[1]) for h in ob.hyps if h.op == '==']
         r = solve.ring_prove_eq(alg, ob.pair[0], ob.pair[1], eq_hyps=eqh, check_cert=True)
         if r.status == 'proved':
-            return done('proved', r.detail)
+            return done('proved', r.detail + ('(exact, stronger than the stated tolerance)' if ob.tol is not None else ''))
         ring_detail = r.status + ': ' + str(r.detail)[:200]
     if goal.op == 'F':
         # unconditional failure on a feasible path
         w = dict(live[0].env) if live else None
         if w is None:
-            st, env = solve.z3_sat(list(ob.hyps), timeout_s=budget)
+            st, env = solve.z3_sat(list(ob.hyps), timeout_s=budget, alg=alg)
             if st == 'unsat':
                 return done('proved', 'z3(path infeasible)')
             if st == 'sat':
                 w = {k: float(v) for k, v in env.items()}
         return done('refuted', 'path-reachable', witness=w, detail='goal is False on this path')
-    # 3. SMT
+    # 3. SMT portfolio: structured (term-level) export and canonical (polynomial) export, z3 then cvc5
     hyps = relevant_hyps(ob.hyps, goal)
     first = min(budget, 8.0)
-    st, info, solver = solve.z3_check(hyps, goal, timeout_s=first)
-    if st == 'unknown' and solver is not None:
-        r = solve.cvc5_check_solver(solver, timeout_s=budget)
+    solvers = []
+    last_info = None
+    for style in ('term', 'canon'):
+        st, info, solver = solve.z3_check(hyps, goal, timeout_s=first, alg=alg if style == 'canon' else None)
+        if st == 'proved':
+            return done('proved', 'z3', axioms=info, export=style)
+        if st == 'cex':
+            env = {k: float(v) for k, v in info.items()}
+            try:
+                se = SampleEval(env)
+                from .explore import truth_level
+                if min([2] + [truth_level(h, se) for h in ob.hyps]) == 2:
+                    m = _margin(goal, se)
+                    if m is not None and m > REFUTE_MARGIN and _well_conditioned(env):
+                        return done('refuted', 'z3-model', witness=env, detail='margin %.3g' % m)
+            except (EvalUndefined, OverflowError, ZeroDivisionError, ValueError):
+                pass
+            last_info = 'model not confirmed by float evaluation (spurious w.r.t. the real transcendental functions)'
+            if len(hyps) != len(ob.hyps):
+                st2, info2, solver2 = solve.z3_check(list(ob.hyps), goal, timeout_s=first,
+                                                     alg=alg if style == 'canon' else None)
+                if st2 == 'proved':
+                    return done('proved', 'z3(all hyps)', axioms=info2, export=style)
+            continue
+        last_info = info
+        if solver is not None:
+            solvers.append((style, solver))
+    for style, solver in solvers:
+        r = solve.cvc5_check_solver(solver, timeout_s=min(budget, 30.0))
         if r == 'unsat':
-            return done('proved', 'cvc5')
-        if budget > first:
-            st, info, solver = solve.z3_check(hyps, goal, timeout_s=budget)
-    if st == 'proved':
-        return done('proved', 'z3', axioms=info)
-    if st == 'cex':
-        env = {k: float(v) for k, v in info.items()}
-        try:
-            se = SampleEval(env)
-            if all(se.get(h) for h in ob.hyps):
-                m = _margin(goal, se)
-                if m is not None and m > REFUTE_MARGIN:
-                    return done('refuted', 'z3-model', witness=env, detail='margin %.3g' % m)
-        except (EvalUndefined, OverflowError, ZeroDivisionError, ValueError):
-            pass
-        # spurious under the real transcendental functions, or boundary: try without relevance filter / cvc5
-        st2, info2, solver2 = solve.z3_check(list(ob.hyps), goal, timeout_s=budget)
-        if st2 == 'proved':
-            return done('proved', 'z3(all hyps)', axioms=info2)
-        return done('undecided', 'z3', detail='model not confirmed by float evaluation; ring: %s' % ring_detail)
-    return done('undecided', 'z3+cvc5', detail='%s; ring: %s' % (info, ring_detail))
+            return done('proved', 'cvc5', export=style)
+    if budget > first:
+        for style, _ in solvers:
+            st, info, solver = solve.z3_check(hyps, goal, timeout_s=budget, alg=alg if style == 'canon' else None)
+            if st == 'proved':
+                return done('proved', 'z3', axioms=info, export=style)
+    return done('undecided', 'z3+cvc5', detail='%s; ring: %s' % (last_info, ring_detail))
 
 
 def verify_contract(name, tier='quick', seed=0, repo=None):
@@ -185,12 +206,13 @@ def verify_contract(name, tier='quick', seed=0, repo=None):
         for t in targets:
             out['functions'].append({'function': t, 'ast_sha1': loader.func_hash(t)})
         samples = make_samples(c, c.n_samples if tier == 'quick' else 3 * c.n_samples, seed)
-        ex = Explorer(samples=samples, max_paths=c.max_paths)
+        alg = Algebra()
+        ex = Explorer(samples=samples, max_paths=c.max_paths, alg=alg)
         budget = c.timeout if tier == 'quick' else 5 * c.timeout
         rules_box = []
 
         def body(ctx):
-            g = G('symbolic', ctx=ctx)
+            g = G('symbolic', ctx=ctx, alg=alg)
             ctx.g = g
             args, kwargs = c.setup(g)
             if not rules_box:
@@ -212,24 +234,29 @@ def verify_contract(name, tier='quick', seed=0, repo=None):
                 return
             c.post(g, res, args, kwargs)
 
-        paths = ex.run(body)
-        alg = Algebra()
-        for r in (rules_box[0] if rules_box else []):
-            if r[0] == 'sq':
-                alg.add_var_square_rule(r[1], r[2], r[3])
-            else:
-                alg.add_var_prod_rule(r[1], r[2], r[3], r[4])
-        out['paths'] = len([p for p in paths if not p.cut])
-        out['paths_cut'] = len([p for p in paths if p.cut])
-        n_ob = 0
-        for pi, p in enumerate(paths):
+        def on_path(pi, p):
+            if not p.live and not p.cut:
+                # vacuity guard: the path must be reachable under requires
+                st, env = solve.z3_sat(list(p.all_hyps()), timeout_s=10.0, alg=alg)
+                if st == 'unsat':
+                    p.cut = True
+                    out['paths_pruned_late'] = out.get('paths_pruned_late', 0) + 1
+                    return
+                if st == 'sat':
+                    try:
+                        se = SampleEval({k: float(v) for k, v in env.items()})
+                        from .explore import truth_level
+                        if min([2] + [truth_level(h, se) for h in p.all_hyps()]):
+                            p.live.append(se)
+                    except (EvalUndefined, OverflowError, ZeroDivisionError, ValueError):
+                        pass
+                    out['covers_by_model'] = out.get('covers_by_model', 0) + 1
             if p.live:
                 out['covers'] += 1
             pc_txt = [T.show(l, 3) for l in p.pc][:12]
             for ob in p.obligations:
-                n_ob += 1
                 try:
-                    v = discharge(ob, alg, p.live, budget, tier)
+                    v = discharge(ob, alg, p.strict_live(), budget, tier)
                 except EngineError as e:
                     v = dict(status='error', backend='engine', s=0.0, detail=str(e)[:300])
                 rec = dict(name=ob.name, kind=ob.kind, path=pi, pc=pc_txt, goal=T.show(ob.goal, 4)[:200])
@@ -237,8 +264,10 @@ def verify_contract(name, tier='quick', seed=0, repo=None):
                 if ob.kind == 'safety' and v['status'] == 'proved':
                     rec.pop('pc', None)
                 out['obligations'].append(rec)
-            if p.cut and not p.obligations:
-                pass
+
+        paths = ex.run(body, on_path)
+        out['paths'] = len([p for p in paths if not p.cut])
+        out['paths_cut'] = len([p for p in paths if p.cut])
         out['assumptions'] = sorted(ex.assumption_notes)
         out['rewrites'] = {m: loader.REWRITES.get(m, []) for m in sorted(loader.REWRITES)}
         out['path_samples'] = [[T.show(l, 3) for l in p.pc][:8] for p in paths[:6]]
